@@ -1787,6 +1787,9 @@ func (tc *typechecker) checkExplicitConversion(expr *ast.Call) *typeInfo {
 
 	t := tc.compilation.typeInfos[expr.Func]
 
+	if expr.IsVariadic { // T(x...)
+		panic(tc.errorf(expr, "invalid use of ... in conversion to %s", t))
+	}
 	if len(expr.Args) == 0 {
 		panic(tc.errorf(expr, "missing argument to conversion to %s: %s", t, expr))
 	}
